@@ -150,6 +150,9 @@ func mutantsCmd(repo, dir, only, tier string, withTests bool) int {
 			continue
 		}
 		neg := strings.HasPrefix(name, "neg-")
+		if neg && os.Getenv("VERIF_SKIP_NEG") != "" {
+			continue // (a regression of the breaking changes only: each negative control costs a full quick check)
+		}
 		scratch, err := os.MkdirTemp(scratchBase(), "rtcp-mut-")
 		if err != nil {
 			fmt.Fprintln(os.Stderr, err)
